@@ -142,6 +142,80 @@ Theorem C07_stale_last_refuted : exists outs o c,
 Proof. do 3 eexists. vm_compute. repeat split. Qed.
 Print Assumptions C07_stale_last_refuted.
 
+(* ------------------------------------------------------------------------
+   The asyncio path: asyncio.run(doist.ado()) with real=True.  Separately
+   written code, modelled next to do() ([ado_real], [await], [acycles]).  What
+   differs from do():
+   * the timer is an AsyncTimer = plain Timer over asyncio.get_event_loop().time(),
+     created INSIDE ado() with duration=self.tock: the tock is read when ado is
+     called (D4 never existed here) and no timer state survives from one run to
+     the next, so the theorems quantify over the clock only, not over a timer;
+   * the run starts at the second loop-clock reading (AsyncTimer(...) takes one,
+     .start() the next);
+   * there is no retrograde handling and none is needed: the deadlines are
+     start + (k+1) tocks on the loop clock, exactly, for EVERY environment -- no
+     [shifts] term.  The loop clock is monotonic, but not-early does not even
+     depend on that: a clock that stepped back would only make the wait longer.
+   [world] is now the loop clock; [sleep] is one awaited asyncio.sleep. *)
+
+Theorem C07_ado_not_early : forall fuel tock w works out wf,
+  world_ok w -> Forall step_ok works ->
+  ado_real fuel tock w works = Some (out, wf) ->
+  (forall k c, nth_error (r_cycles out) k = Some c -> r_mono out + Z.of_nat k * tock <= c_mono c) /\
+  r_mono out + Z.of_nat (length works) * tock <= r_end_mono out /\
+  length (r_cycles out) = length works.
+Proof.
+  intros fuel tock w works out wf Hw Hs E.
+  destruct (ado_real_not_early fuel tock w works out wf Hw Hs E) as [_ H]. exact H.
+Qed.
+Print Assumptions C07_ado_not_early.
+
+(* lossless = no drift here: the deadline of cycle k is the start reading plus
+   k+1 tocks, with no hypothesis on the environment at all *)
+Theorem C07_ado_lossless : forall fuel tock w works out wf,
+  ado_real fuel tock w works = Some (out, wf) ->
+  forall k c, nth_error (r_cycles out) k = Some c ->
+    c_stop c = r_now out + (Z.of_nat k + 1) * tock.
+Proof. exact ado_real_lossless. Qed.
+Print Assumptions C07_ado_lossless.
+
+(* ... so consecutive deadlines are exactly one tock apart whatever the work
+   time, lateness, overshoot or early wakeups of the cycle in between *)
+Theorem C07_ado_no_drift : forall fuel tock w works out wf,
+  ado_real fuel tock w works = Some (out, wf) ->
+  forall k c c', nth_error (r_cycles out) k = Some c -> nth_error (r_cycles out) (S k) = Some c' ->
+    c_stop c' = c_stop c + tock.
+Proof.
+  intros fuel tock w works out wf E k c c' H1 H2.
+  rewrite (ado_real_lossless _ _ _ _ _ _ E _ _ H1), (ado_real_lossless _ _ _ _ _ _ E _ _ H2). lia.
+Qed.
+Print Assumptions C07_ado_no_drift.
+
+Theorem C07_ado_terminates : forall fuel tock w works,
+  world_ok w -> Forall step_ok works -> (2 * bad w + 1 < fuel)%nat ->
+  exists out wf, ado_real fuel tock w works = Some (out, wf).
+Proof. exact ado_real_ends. Qed.
+Print Assumptions C07_ado_terminates.
+
+(* every ado() run of a session, with the tock in force when ado is called *)
+Theorem C07_ado_sessions : forall fuel t0 tock0 rs os runs outs,
+  Forall step_ok rs -> Forall slp_ok os -> Forall run_ok runs ->
+  aplay fuel t0 tock0 rs os runs = Some outs ->
+  Forall2 (fun t o => not_early_run t o /\ ado_exact_run t o) (eff_tocks tock0 runs) outs.
+Proof. exact aplay_runs. Qed.
+Print Assumptions C07_ado_sessions.
+
+Example C07_ado_example :   (* unit 1/8 s; tock 1/2 s at construction, 2 s assigned before ado(); late cycle 1, one early wakeup, one overshoot *)
+  let runs := [{| i_pre := (5, 0); i_tock := Some 16; i_works := [(2, 0); (40, 0); (2, 0); (2, 0)] |}] in
+  Forall run_ok runs /\
+  match aplay 3 100 4 [(0, 0); (1, 0)] [Early 6; Over 0; Over 3] runs with
+  | Some [o] => r_now o = 106 /\ map c_stop (r_cycles o) = [122; 138; 154; 170] /\
+                map c_now (r_cycles o) = [106; 122; 162; 164] /\ map c_sleeps (r_cycles o) = [[14; 8]; []; []; [4]] /\
+                r_end_now o = 173
+  | _ => False
+  end.
+Proof. split; [repeat constructor; cbn; lia|]. vm_compute. repeat split. Qed.
+
 (* The named residue.  The theorems above are about exact time; binary64 is
    not exact: at an epoch-sized clock reading `_start + tock` is rounded to a
    multiple of 2^-22 s and restart() reuses the rounded duration, so with tock
